@@ -296,6 +296,11 @@ def execute(res, runs, space_note="", deadline_total=None, max_confirm=40,
         res.bounds.append({"run": label, "space": pr["run"].space, "props": pr["run"].props,
                            "complete": complete, "wall_s": round(pr["wall_s"], 2),
                            "counters": c})
+    res.extra["case_format"] = ("registry text: 'P n m0..m(n-1)' classes 0..n-1, mi = bit set of the proper (transitive) bases of class i | "
+                                "'A mask' abstract classes | 'R cls.alias:listed bases@alias bits ; ...' class records in registration order | "
+                                "'M shape.arity:parameter classes@alias:definition tuples separated by /' methods in registration order "
+                                "(shape = index into e1/shapes.inc: R virtual_<T&>, N int, P pointer, S shared_ptr, C const shared_ptr&, V virtual_ptr, W virtual_shared_ptr, X const virtual_ptr&); "
+                                "history text 'H ops': a-e toggle class records, m n methods, w-z definitions, U update")
     res.extra["second_oracle_cases"] = oracle_checked
     res.extra["second_oracle_disagreements"] = disagreements
 
